@@ -1,5 +1,5 @@
 (* kind conv: one scripted conversation with the server *)
-From Smtp Require Import Bytes Sx GoStrings Transport DataReader Parse Reply Rfc3339 Lmtp Conn Order CheckBase.
+From Smtp Require Import Bytes Sx GoStrings Transport DataReader Parse Reply Rfc3339 Lmtp Conn Order CheckBase CheckOracle.
 
 (* ---------- decoding ---------- *)
 
@@ -201,12 +201,20 @@ Definition canon_line (l : bytes) : bytes :=
 Definition canon_wire (b : bytes) : bytes :=
   join [LF] (map canon_line (split_byte LF b)).
 
-Fixpoint canon_sx (x : sx) : sx :=
+Definition canon_sx (x : sx) : sx :=
   match x with
   | SL [SA t; w] =>
       if bytes_eqb t (bs "w") then
         match sx_bytes w with
         | Some b => SL [SA t; XB (canon_wire b)]
+        | None => x
+        end
+      else x
+  | SL [SA t; m; r] =>
+      (* the mechanism name is upper-cased with Go's Unicode tables: not modelled outside ASCII *)
+      if bytes_eqb t (bs "auth") then
+        match sx_bytes m with
+        | Some b => if all_ascii b then x else SL [SA t; XT "non-ascii-mechanism"; r]
         | None => x
         end
       else x
@@ -309,6 +317,28 @@ Definition run_conv (cfg : config) (be : backend) (phases : list (list raw)) : l
   let fuel := fold_left (fun n p => n + raws_size p + 4)%nat phases 16%nat in
   serve fuel cfg be phases.
 
+(* the property oracles, evaluated on the implementation's recorded behaviour *)
+Definition conv_oracle (cfg : config) (be : backend) (obs expect : list sx) : list bytes :=
+  match assoc1 "events" obs, assoc1 "deliveries" obs, assoc1 "panics" obs with
+  | Some (SL evx), Some (SL delx), Some px =>
+      match map_opt dec_event evx, map_opt dec_event delx, sx_N px with
+      | Some evs, Some dels, Some panics =>
+          let plan_panics := existsb (fun p => dp_panic p || match dp_status p with [] => false | _ => true end) (be_data be) in
+          dedup (oracle_sessions cfg evs ++ oracle_size cfg (evs ++ dels)
+                 ++ oracle_verdict (cf_lmtp cfg) evs ++ oracle_incomplete (cf_lmtp cfg) evs
+                 ++ oracle_panics panics plan_panics
+                 ++ (if bytes_eqb (focus_of expect) (bs "C02") || bytes_eqb (focus_of expect) (bs "C05")
+                     then oracle_bait evs else [])
+                 ++ focus_oracle expect evs dels
+                 ++ (match assoc1 "waited" obs with
+                     | Some w => if sx_is "t" w then [] else [bs "C08"; bs "C20"]
+                     | None => []
+                     end))
+      | _, _, _ => [bs "UNDECODABLE-OBSERVATION"]
+      end
+  | _, _, _ => [bs "UNDECODABLE-OBSERVATION"]
+  end.
+
 Definition check_conv (args : list sx) : verdict :=
   match assoc "cfg" args, assoc "be" args, assoc1 "phases" args, assoc "obs" args with
   | Some cfga, Some bea, Some ph, Some obs =>
@@ -319,8 +349,9 @@ Definition check_conv (args : list sx) : verdict :=
           let agree := negb (has_out_of_fuel evs)
                        && (sx_eqb model (canon_obs obs) || trace_nondet cfg evs) in
           let mon_ok := match mon_run cfg (mon_init (cf_implicit_tls cfg)) evs with Some _ => true | None => false end in
-          mkV true (agree && mon_ok) model [] []
-              (conv_tags cfg evs ++ (if trace_nondet cfg evs then [bs "nondet-param-order"] else [])
+          let expect := match assoc "expect" args with Some e => e | None => [] end in
+          mkV true (agree && mon_ok) model (conv_oracle cfg be obs expect) []
+              ((match assoc "expect" args with Some e => [bs "focus-" ++ focus_of e] | None => [] end) ++ conv_tags cfg evs ++ (if trace_nondet cfg evs then [bs "nondet-param-order"] else [])
                ++ (if mon_ok then [] else [bs "MODEL-TRACE-REJECTED-BY-MONITOR"]))
       | _, _, _ => bad_case
       end
